@@ -1,6 +1,7 @@
 package stack
 
 import (
+	"encoding/json"
 	"reflect"
 	"time"
 
@@ -86,7 +87,8 @@ func (w *World) execOverlap(op hx.Zs) []hx.Zs {
 		return nil
 	}
 	td, call := op[2:2+n], op[2+n:]
-	okTd := td[0] == 13 || td[0] == 6 || td[0] == 5
+	isDel := td[0] == 8 || td[0] == 10 // a delete call of p, parked inside the registry's critical section
+	okTd := td[0] == 13 || td[0] == 6 || td[0] == 5 || isDel
 	okCall := call[0] >= 7 && call[0] <= 10
 	if !okTd || !okCall || td[1] == call[1] {
 		return nil // not an overlap: nothing happens (as in the model)
@@ -94,24 +96,46 @@ func (w *World) execOverlap(op hx.Zs) []hx.Zs {
 	q, ctr := call[1], call[2]
 	d := &overlap{sub: call[0] == 7 || call[0] == 8, entered: make(chan struct{}), done: make(chan struct{}),
 		deliver: func() { w.execOp(call) }}
+	if isDel {
+		// the delete reaches the yield point between its filter and its store (on the unchanged code:
+		// holding the registry mutex): q's call is delivered there.  The removal event that follows
+		// is not used as a trigger for deletes.
+		d.atYield = "RemoveSubscription.filtered"
+		if td[0] == 10 {
+			d.atYield = "RemoveBinding.filtered"
+		}
+		spine.VerifSetYield(func(point string) { w.overlapYield(d, point) })
+	}
 	w.mu.Lock()
 	w.ov = d
 	w.mu.Unlock()
 	ret := w.execOp(td)
+	if isDel {
+		spine.VerifSetYield(ChainYield)
+	}
 	w.mu.Lock()
 	started := d.started
 	d.started = true // no removal event of that registry: the call is delivered now
 	w.ov = nil
 	w.mu.Unlock()
+	if started && isDel {
+		ovCount("call-delivered-inside-delete-critical-section")
+	} else if !started && isDel {
+		ovCount("call-delivered-after-refused-delete")
+	}
 	if started {
-		ovCount("call-delivered-inside-removal-cascade")
+		if !isDel {
+			ovCount("call-delivered-inside-removal-cascade")
+		}
 		select {
 		case <-d.done:
 		case <-time.After(10 * time.Second):
 			ret = append(ret, hx.Zs{94})
 		}
 	} else {
-		ovCount("call-delivered-after-teardown-without-removal-event")
+		if !isDel {
+			ovCount("call-delivered-after-teardown-without-removal-event")
+		}
 		d.deliver()
 	}
 	out := append(w.drain(22), ret...)
@@ -285,7 +309,25 @@ func (w *World) execOp(op hx.Zs) []hx.Zs {
 				ret = append(ret, append(z, fromFeatureAddr(s.ClientFeature.Address()).enc()...))
 			}
 		}
-	case 16, 17, 18, 19: // client-side requests / bookkeeping
+		// The list reported TO the peer: it asks the node management for its subscription / binding
+		// list over its connection (nodeManagementSubscriptionData / nodeManagementBindingData call,
+		// NodeManagement.processRead{Subscription,Binding}Data) and the reply must be the same list,
+		// ids included.  Equal lists are one listing; otherwise both are returned (the wire list first)
+		// and cannot be the model's listing.  A connected peer that gets no reply: [4 p 6].
+		if !pr.gone {
+			wire, answered := w.wireListing(p, code == 14)
+			if answered {
+				ovCount("listing-read-over-the-wire-answered")
+			}
+			switch {
+			case !answered:
+				ovCount("listing-read-over-the-wire-unanswered")
+				ret = append(ret, hx.Zs{4, p, 6})
+			case !sameListing(wire, ret):
+				ret = append(wire, ret...)
+			}
+		}
+	case 16, 17, 18, 19, 23, 24: // client-side requests / bookkeeping
 		f := r.n()
 		e := r.eaddr()
 		ra := r.faddr()
@@ -305,6 +347,12 @@ func (w *World) execOp(op hx.Zs) []hx.Zs {
 			retB(fl.HasSubscriptionToRemote(ra.model()))
 		case 19:
 			retB(fl.HasBindingToRemote(ra.model()))
+		case 23:
+			_, err := fl.RemoveRemoteSubscription(ra.model())
+			retB(err == nil)
+		case 24:
+			_, err := fl.RemoveRemoteBinding(ra.model())
+			retB(err == nil)
 		}
 	case 20: // ReadData
 		f, fn := r.n(), r.n()
@@ -330,4 +378,85 @@ func (w *World) execOp(op hx.Zs) []hx.Zs {
 		}
 	}
 	return ret
+}
+
+func sameListing(a, b []hx.Zs) bool {
+	if len(a) != len(b) {
+		return false
+	}
+	for i := range a {
+		if len(a[i]) != len(b[i]) {
+			return false
+		}
+		for j := range a[i] {
+			if a[i][j] != b[i][j] {
+				return false
+			}
+		}
+	}
+	return true
+}
+
+// wireListing lets peer p read its subscription (sub) or binding list through the local node
+// management and returns the entries of the reply in the encoding of the listing observation.
+// Everything written to p in answer to the read is taken out of the log.
+func (w *World) wireListing(p int64, sub bool) ([]hx.Zs, bool) {
+	w.readCtr++
+	ctr := 1000000 + w.readCtr
+	h := header(nmAddr(w.peerDev(p)), nmAddr(devPtr(1)), ctr, nil, false, model.CmdClassifierTypeCall)
+	var cmd model.CmdType
+	if sub {
+		cmd.NodeManagementSubscriptionData = &model.NodeManagementSubscriptionDataType{}
+	} else {
+		cmd.NodeManagementBindingData = &model.NodeManagementBindingDataType{}
+	}
+	w.inject(p, model.DatagramType{Header: h, Payload: model.PayloadType{Cmd: []model.CmdType{cmd}}})
+	w.mu.Lock()
+	items := w.log
+	w.log = nil
+	var mine []logItem
+	for _, it := range items {
+		if it.ski == p {
+			var d model.Datagram
+			if json.Unmarshal(it.msg, &d) == nil && d.Datagram.Header.MsgCounterReference != nil &&
+				int64(*d.Datagram.Header.MsgCounterReference) == ctr {
+				mine = append(mine, it)
+				continue
+			}
+		}
+		w.log = append(w.log, it)
+	}
+	w.mu.Unlock()
+	var out []hx.Zs
+	answered := false
+	entry := func(id *uint, srv, cli *model.FeatureAddressType) {
+		z := hx.Zs{8, -1}
+		if id != nil {
+			z[1] = int64(*id)
+		}
+		z = append(z, fromFeatureAddr(srv).enc()...)
+		out = append(out, append(z, fromFeatureAddr(cli).enc()...))
+	}
+	for _, it := range mine {
+		var d model.Datagram
+		_ = json.Unmarshal(it.msg, &d)
+		hd := d.Datagram.Header
+		if hd.CmdClassifier == nil || *hd.CmdClassifier != model.CmdClassifierTypeReply || len(d.Datagram.Payload.Cmd) != 1 {
+			continue
+		}
+		c := d.Datagram.Payload.Cmd[0]
+		switch {
+		case sub && c.NodeManagementSubscriptionData != nil:
+			answered = true
+			for _, e := range c.NodeManagementSubscriptionData.SubscriptionEntry {
+				entry((*uint)(e.SubscriptionId), e.ServerAddress, e.ClientAddress)
+			}
+		case !sub && c.NodeManagementBindingData != nil:
+			answered = true
+			for _, e := range c.NodeManagementBindingData.BindingEntry {
+				entry((*uint)(e.BindingId), e.ServerAddress, e.ClientAddress)
+			}
+		}
+	}
+	return out, answered
 }
